@@ -5,6 +5,7 @@ import (
 	"fmt"
 	"os"
 
+	_ "verif/sim/props/c01"
 	_ "verif/sim/props/c11"
 	_ "verif/sim/props/c19"
 )
